@@ -7,7 +7,7 @@ bad=0
 check() { # mode line
   mode=$1; fn=$2; verdict=$3; pat=$4
   flags=""; [ "$mode" = lite ] && flags="-lite"
-  out=$(GOVC_REPO=$M timeout 600 ./bin/govc fn $flags -timeout 10 -out /tmp/govc-selftest -pkg ./embedded/selftest "$fn" 2>&1)
+  out=$(GOVC_REPO=$M timeout 600 ${GOVC_BIN:-./bin/govc} fn $flags -timeout 10 -out /tmp/govc-selftest -pkg ./embedded/selftest "$fn" 2>&1)
   fails=$(echo "$out" | grep -c "^  FAIL")
   if [ "$verdict" = pass ]; then
     if [ "$fails" -ne 0 ] || ! echo "$out" | grep -q "obligations, 0 failed"; then echo "SELFTEST-BAD $fn: expected pass"; echo "$out" | grep -E "FAIL|engine" | head -5; bad=$((bad+1)); else echo "ok   $fn (pass)"; fi
@@ -34,7 +34,7 @@ for f in sorted(glob.glob(sys.argv[1]+'/embedded/selftest/*.go')):
 PY
 )
 # the replay machinery: counter-models of loop-free functions must replay on the real code
-rp=$(GOVC_REPO=$M timeout 600 ./bin/govc fn -replay -timeout 10 -out /tmp/govc-selftest -pkg ./embedded/selftest idxOOB divZero maxWrong 2>&1 | grep -c "confirmed=true")
+rp=$(GOVC_REPO=$M timeout 600 ${GOVC_BIN:-./bin/govc} fn -replay -timeout 10 -out /tmp/govc-selftest -pkg ./embedded/selftest idxOOB divZero maxWrong 2>&1 | grep -c "confirmed=true")
 if [ "$rp" -ge 3 ]; then echo "ok   replays confirmed ($rp)"; else echo "SELFTEST-BAD replay: only $rp of the expected counter-models replayed"; bad=$((bad+1)); fi
 rm -rf /tmp/govc-selftest
 echo "selftest: $bad unexpected verdicts"
